@@ -124,6 +124,23 @@ def numberedOut (f : Nat → List Row → List Row) (parts : List (List Row)) (j
 def selectParts (parts : List (List Row)) (P : List Nat) : List (List Row) :=
   P.map (fun p => parts.getD p [])
 
+/-! ### per-partition arguments looked up by POSITION (`BlockwiseDep.iterable[i]`: the bin edges and the closed
+    side of `ResampleAggregation`).  `Partitions._simplify_down` selects them together with the frame:
+        BlockwiseDep([op.iterable[p] for p in self.partitions])
+    (before the fix "a partition selection pushed below a resample aggregation also selects its per-partition
+    bin edges" they were passed on unchanged). -/
+
+/-- output `j` of a blockwise operation that receives the `j`-th entry of a per-partition argument list -/
+def depOut (g : Nat → List Row → List Row) (args : List Nat) (parts : List (List Row)) (j : Nat) : List Row :=
+  g (args.getD j 0) (parts.getD j [])
+
+/-- `[op.iterable[p] for p in self.partitions]`; `none` = IndexError -/
+def selectArgs (args : List Nat) : List Nat → Option (List Nat)
+  | [] => some []
+  | p :: t => match args[p]?, selectArgs args t with
+      | some a, some r => some (a :: r)
+      | _, _ => none
+
 /-- composition with a `PartitionsFiltered` frame:
     `[frame._partitions[p] for p in self.partitions] if frame._partitions else self.partitions`
     (`frame._partitions` is `range(npartitions)` when unfiltered, so both branches index) -/
